@@ -303,4 +303,106 @@ theorem kernelH_spec (x : List Val) (N : Nat) (lx : N ≤ x.length) :
     · exact Or.inl ⟨⟨h1, h2⟩, h3⟩
     · exact Or.inr ⟨h1, h2⟩
 
+/-! ### errors -/
+
+theorem slope_error (x : List Val) (t : List Rat) (i k : Nat) (e : Err) (hi : i < x.length)
+    (hk : k < x.length) (hi' : i < t.length) (hk' : k < t.length)
+    (h : slope x t i k = .error e) : e = .zeroDiv ∧ tAt t k = tAt t i := by
+  simp only [slope, rd_lt x k hk, rd_lt x i hi, rd_lt t k hk', rd_lt t i hi', bind_ok] at h
+  by_cases h0 : t[k] - t[i] = 0
+  · rw [if_pos h0] at h
+    cases h
+    exact ⟨rfl, by rw [tAt_lt t k hk', tAt_lt t i hi']; grind⟩
+  · rw [if_neg h0] at h
+    cases h
+
+theorem condN_error (x : List Val) (t : List Rat) (mv : Option (List Bool)) (N i k : Nat)
+    (test : Val) (e : Err) (lx : N ≤ x.length) (lt : N ≤ t.length)
+    (lm : ∀ m, mv = some m → N ≤ m.length) (hi : i < N) (hk : k < N)
+    (h : condN x t mv i test k = .error e) : e = .zeroDiv ∧ tAt t k = tAt t i := by
+  have hs : ∀ e', slope x t i k = .error e' → e' = .zeroDiv ∧ tAt t k = tAt t i := fun e' =>
+    slope_error x t i k e' (by omega) (by omega) (by omega) (by omega)
+  cases mv with
+  | none =>
+    simp only [condN, pure, Except.pure, bind_ok, Bool.false_eq_true, if_false] at h
+    cases hsl : slope x t i k with
+    | error e' => rw [hsl] at h; cases h; exact hs _ hsl
+    | ok s => rw [hsl] at h; cases h
+  | some m =>
+    have hm : k < m.length := by have := lm m rfl; omega
+    simp only [condN, rd_lt m k hm, bind_ok] at h
+    cases hmk : m[k] with
+    | true => rw [hmk] at h; cases h
+    | false =>
+      rw [hmk] at h
+      simp only [Bool.false_eq_true, if_false] at h
+      cases hsl : slope x t i k with
+      | error e' => rw [hsl] at h; cases h; exact hs _ hsl
+      | ok s => rw [hsl] at h; cases h
+
+theorem farN_error (x : List Val) (t : List Rat) (mv : Option (List Bool)) (N i j : Nat)
+    (e : Err) (lx : N ≤ x.length) (lt : N ≤ t.length)
+    (lm : ∀ m, mv = some m → N ≤ m.length) (hij : i < j) (hj : j < N)
+    (h : farN x t mv i j = .error e) :
+    e = .zeroDiv ∧ ∃ k, i < k ∧ k ≤ j ∧ tAt t k = tAt t i := by
+  simp only [farN] at h
+  cases hsl : slope x t i j with
+  | error e' =>
+    rw [hsl] at h; cases h
+    have := slope_error x t i j _ (by omega) (by omega) (by omega) (by omega) hsl
+    exact ⟨this.1, j, hij, Nat.le_refl _, this.2⟩
+  | ok test =>
+    rw [hsl] at h
+    simp only [bind_ok] at h
+    cases hsc : scan (condN x t mv i test) j (j - i) (i + 1) with
+    | ok r => rw [hsc] at h; cases h
+    | error e' =>
+      rw [hsc] at h; cases h
+      obtain ⟨m, h1, h2, h3⟩ := scan_error _ j (j - i) (i + 1) _ (by omega) (by omega) hsc
+      have := condN_error x t mv N i m test _ lx lt lm (by omega) (by omega) h3
+      exact ⟨this.1, m, by omega, h2, this.2⟩
+
+/-- **error branch of the natural kernels**: with arrays of matching size the only
+possible failure is `ZeroDivisionError`, and it needs two equal timings; neither an
+`IndexError` nor an exhausted loop can occur, whatever the timings are. -/
+theorem kernelN_error (x : List Val) (t : List Rat) (mv : Option (List Bool)) (N : Nat)
+    (e : Err) (lx : N ≤ x.length) (lt : N ≤ t.length) (lm : ∀ m, mv = some m → N ≤ m.length)
+    (h : kernelN x t mv N = .error e) :
+    e = .zeroDiv ∧ ∃ i k, i < k ∧ k < N ∧ tAt t k = tAt t i := by
+  simp only [kernelN] at h
+  cases hf : filterE (fun p => farN x t mv p.1 p.2) (farPairs N) with
+  | error e' =>
+    rw [hf] at h; cases h
+    obtain ⟨⟨i, j⟩, hp, he⟩ := filterE_error _ _ _ hf
+    rw [farPairs_mem] at hp
+    obtain ⟨h1, k, h2, h3, h4⟩ := farN_error x t mv N i j _ lx lt lm (by omega) hp.2 he
+    exact ⟨h1, i, k, h2, by omega, h4⟩
+  | ok far =>
+    rw [hf] at h
+    simp only [bind_ok] at h
+    cases ha : filterE (adjCond mv) (adjPairs N) with
+    | ok adj => rw [ha] at h; cases h
+    | error e' =>
+      exfalso
+      obtain ⟨⟨i, j⟩, hp, he⟩ := filterE_error _ _ _ ha
+      rw [adjPairs_mem] at hp
+      obtain ⟨rfl, h2⟩ := hp
+      obtain ⟨b, hb, _⟩ := adjCond_spec mv N i lm h2
+      rw [hb] at he
+      cases he
+
+/-! ### clustering loops -/
+
+theorem retPairs_mem (i j k : Nat) : (j, k) ∈ retPairs i ↔ k < j ∧ j < i := by
+  simp only [retPairs, List.mem_flatMap, List.mem_range, List.mem_map, Prod.mk.injEq]
+  constructor
+  · rintro ⟨j', h1, k', h2, rfl, rfl⟩; exact ⟨h2, h1⟩
+  · rintro ⟨h1, h2⟩; exact ⟨j, h2, k, h1, rfl, rfl⟩
+
+theorem advPairs_mem (N i j k : Nat) : (j, k) ∈ advPairs N i ↔ i < k ∧ k < j ∧ j < N := by
+  simp only [advPairs, List.mem_flatMap, List.mem_range'_1, List.mem_map, Prod.mk.injEq]
+  constructor
+  · rintro ⟨j', ⟨h1, h2⟩, k', ⟨h3, h4⟩, rfl, rfl⟩; omega
+  · rintro ⟨h1, h2, h3⟩; exact ⟨j, ⟨by omega, by omega⟩, k, ⟨by omega, by omega⟩, rfl, rfl⟩
+
 end Pyunicorn.Visibility
